@@ -26,6 +26,7 @@ from fractions import Fraction as F
 
 from ..loader import AnalysisError
 from ..pe import show_term, PE, Mock, Obj, PyRaise, Tensor, Fork, Func
+from ..pe import Unsupported
 from ..pe import make_var as P_make_var
 from ..qir import Fwd, mk_app
 from ..nf import NF, show
@@ -453,16 +454,33 @@ def rule_lists(rep, repo):
     raise AnalysisError("anchor-missing utils.convert_to_folded_model")
   unit = "%s::convert_to_folded_model" % um.relpath
   rep.unit(unit)
-  foldable = None
-  for n in ast.walk(cf):
-    if isinstance(n, ast.Assign) and any(
-        isinstance(t, ast.Name) and t.id == "is_foldable"
-        for t in n.targets):
-      for x in ast.walk(n.value):
-        if isinstance(x, ast.List):
-          foldable = [e.value for e in x.elts if isinstance(e, ast.Constant)]
+  # which layer classes the selection loop folds: decided by interpreting
+  # it on a chain  probe -> BatchNormalization -> probe -> ...  with one
+  # probe layer per class (stand-ins that declare the classes they derive
+  # from, so a name test and an isinstance test are read alike)
+  from ..graphmock import probe_chain
+  PROBES = ("Conv2D", "DepthwiseConv2D", "Conv1D", "Dense",
+            "SeparableConv2D", "Conv2DTranspose", "QConv2D",
+            "QDepthwiseConv2D", "QConv1D", "QDense", "QConv2DTranspose",
+            "QSeparableConv2D")
+  G, graph, qg, removed, topo = probe_chain(PROBES)
+  model = Mock("model", {"get_config": lambda pe, a, k: {"layers": []},
+                         "inputs": ["in"]})
+  pe = PE(repo, module_overrides={um.name: {
+      "clone_model": lambda pe, a, k: model, "qgraph": qg,
+      "Model": lambda pe, a, k: Mock("new_model", {})}})
+  pe.opaque_ext = True
+  pe.ext_overrides = {"*.topological_sort": topo}
+  try:
+    r = pe.call(pe.lookup_global("convert_to_folded_model", um), [model], {})
+    foldable = [n_[len("probe_"):] for n_ in r[1]]
+  except (PyRaise, Unsupported) as e:
+    raise AnalysisError("unsupported-construct convert_to_folded_model on "
+                        "the probe chain: %s" % e)
   if not foldable:
-    raise AnalysisError("anchor-missing is_foldable class list")
+    rep.fail("R5", unit, "nothing-folded",
+             "convert_to_folded_model folds none of %s" % (PROBES,),
+             loc=um.loc(cf))
   rep.extra["foldable_classes"] = foldable
   # folding arms of model_quantize: conditions mentioning enable_bn_folding
   arms = {}
